@@ -63,7 +63,7 @@ def gen_case(tape: Tape, tier: str, clock_revealing: bool = False, force_backend
     if ragged and tape.bool(0.15, "dt_ragged"):
         dt = T / float(tape.choice(ragged, "dt_ragged_k"))
     kinds = ["occupation", "energy", "bitstrings", "correlation_matrix", "energy_variance", "energy_second_moment"]
-    obs, dflt = S.gen_observables(tape, T, dt, kinds=kinds, always=["occupation"] if clock_revealing else (["energy_second_moment", "energy_variance", "energy"] if long_lindblad else None), shots=(1, 30))
+    obs, dflt = S.gen_observables(tape, T, dt, kinds=kinds, always=(["occupation"] + (["bitstrings"] if tape.bool(0.5, "clock_bits") else [])) if clock_revealing else (["energy_second_moment", "energy_variance", "energy"] if long_lindblad else None), shots=(60, 300) if clock_revealing else (1, 30))
     cfg: dict[str, Any] = {"backend": "sv" if be.startswith("sv") else "mps", "dt": dt, "observables": obs, "default_times": dflt}
     if cfg["backend"] == "mps":
         cfg.update(precision=1e-8 if clock_revealing else tape.choice([1e-5, 1e-8], "precision"), max_bond_dim=1024, optimize=tape.bool(0.3, "optimize"), solver="dmrg" if be == "mps-dmrg" else "tdvp", autosave_dt=round(tape.float(10.5, 30.0, "autosave_dt"), 2))
